@@ -281,13 +281,18 @@ def state_norm(c):
         "inverse": _arr(uc.inverse),
         "lengths": _arr(uc.lengths),
         "angles": _arr(uc.angles),
+        "cell_other": norm({k: v for k, v in vars(uc).items()
+                            if k not in ("direct", "inverse", "lengths", "angles") and not k.startswith("_")}),
         "sg": [int(sg.international_tables_number), str(sg.choice)],
+        "sg_other": [str(getattr(sg, k, None)) for k in ("symbol", "full_symbol", "centering", "schoenflies", "centrosymmetric")],
         "symops": [int(s.integer_code) for s in sg.symmetry_operations],
+        "symop_arrays": [[_arr(s.rotation), _arr(s.translation)] for s in sg.symmetry_operations],
         "numbers": _arr(au.atomic_numbers),
         "elements": [int(e.atomic_number) for e in au.elements],
         "positions": _arr(au.positions),
         "labels": [str(x) for x in au.labels],
         "occupation": occupation_of(au),
+        "asym_other": norm({k: v for k, v in au.properties.items() if k != "occupation"}),
     }
 
 
